@@ -213,12 +213,12 @@ func genAgg(seed uint64, tier string, emphasis int) *plan.Plan {
 	}
 	for i := 0; i < n; i++ {
 		x := r.IntN(100)
-		wRec, wAdv, wScan := 50, 25, 18
+		wRec, wAdv, wScan := 46, 25, 18
 		switch emphasis {
 		case 1:
-			wRec, wAdv, wScan = 30, 35, 30
+			wRec, wAdv, wScan = 27, 35, 30
 		case 2:
-			wRec, wAdv, wScan = 40, 30, 26
+			wRec, wAdv, wScan = 37, 30, 26
 		}
 		switch {
 		case x < wRec:
@@ -294,7 +294,7 @@ func genAgg(seed uint64, tier string, emphasis int) *plan.Plan {
 		case x < wRec+wAdv+wScan+3:
 			pl.Ops = append(pl.Ops, plan.Op{K: "resetall"})
 		default:
-			pl.Ops = append(pl.Ops, plan.Op{K: "query"})
+			pl.Ops = append(pl.Ops, plan.Op{K: "query", A: int64(r.IntN(3))})
 		}
 	}
 	if r.IntN(5) == 0 {
